@@ -3,3 +3,11 @@
 From Coq Require Import QArith List.
 From IV Require Import Dist.
 Definition const_dist (c p : Q) : dist unit := mkDist (fun _ => tt) (fun _ _ => c) (fun _ _ => p).
+From IV Require Import XQ CorrBase.
+(** extended rationals agree: same infinity, or finite values within 1e-12 *)
+Definition xq_close (a b : XQ.t) : bool :=
+  match a, b with
+  | XQ.NInf, XQ.NInf => true | XQ.PInf, XQ.PInf => true
+  | XQ.Fin x, XQ.Fin y => close x y (1 # 1000000000000)
+  | _, _ => false
+  end.
